@@ -122,7 +122,7 @@ theorem BufInv.preserved : Preserved BufInv where
   same hs h := BufInv.of_eq hs.2.2.1 h
   tick _ h := h
   finish w p v st h := BufInv.of_eq (by simp) h
-  exec w p c h := by
+  exec w p c _ h := by
     by_cases hm : (cmdMask c).bufs = false
     · exact BufInv.of_eq ((execCmd_fp w p c).2.2.1 hm) h
     · cases c <;> simp [cmdMask] at hm
@@ -130,7 +130,7 @@ theorem BufInv.preserved : Preserved BufInv where
       case bufPut b n => simp only [execCmd]; split; exact h; exact BufInv.bufPutLoop _ _ _ _ h
       case recStart kind idx => exact BufInv.setRecording _ _ _ h
       case recStop kind idx => exact BufInv.setRecording _ _ _ h
-  resume w p f sig h := by
+  resume w p f sig _ h := by
     by_cases hm : (frameMask f).bufs = false
     · exact BufInv.of_eq ((resumeFrame_fp w p f sig).2.2.1 hm) h
     · cases f <;> simp [frameMask] at hm
